@@ -15,6 +15,12 @@ def balance(net, tol=1e-5):
                 m = net[et].bus.values == b
                 p += sign * net["res_" + et].p_mw.values[m].sum()
                 q += sign * net["res_" + et].q_mvar.values[m].sum()
+        if len(net.dcline):
+            # dcline terminals are bus elements: p_from_mw / p_to_mw are what the dcline takes from its from / to bus
+            for col, pc, qc in (("from_bus", "p_from_mw", "q_from_mvar"), ("to_bus", "p_to_mw", "q_to_mvar")):
+                m = net.dcline[col].values == b
+                p += net.res_dcline[pc].values[m].sum()
+                q += net.res_dcline[qc].values[m].sum()
         fp = fq = 0.
         for tab, sides in (("line", (("from_bus", "from"), ("to_bus", "to"))), ("trafo", (("hv_bus", "hv"), ("lv_bus", "lv"))),
                            ("impedance", (("from_bus", "from"), ("to_bus", "to")))):
@@ -27,6 +33,8 @@ def balance(net, tol=1e-5):
             bad.append(f"bus {b}: element consumption {p:.6f} MW / {q:.6f} Mvar, branch flows leaving {fp:.6f} / {fq:.6f}")
         if abs(net.res_bus.p_mw.at[b] - p) > tol:
             bad.append(f"bus {b}: res_bus.p_mw {net.res_bus.p_mw.at[b]:.6f} != net element consumption {p:.6f}")
+        if abs(net.res_bus.q_mvar.at[b] - q) > tol:
+            bad.append(f"bus {b}: res_bus.q_mvar {net.res_bus.q_mvar.at[b]:.6f} != net element consumption {q:.6f}")
     return bad
 
 
@@ -175,6 +183,30 @@ def main_zip_all():
         except SystemExit as e:
             codes.append(e.code or 0)
     sys.exit(1 if 1 in codes else max(codes + [0]))
+
+
+def main_elements():
+    """bounded stand-in: fixed networks with every kind of bus element the deductive part does not reach (dcline terminals, storage, ward,
+    xward, shunt next to machines), AC power flow: nodal balance and res_bus against the elements' own results"""
+    fails = []
+    net = pp.create_empty_network()
+    b = pp.create_buses(net, 5, 110.)
+    pp.create_ext_grid(net, b[0], vm_pu=1.0)
+    for f, t in ((0, 1), (2, 3), (0, 3), (3, 4)):
+        pp.create_line_from_parameters(net, b[f], b[t], 30., 0.06, 0.3, 10., 1.)
+    pp.create_dcline(net, b[1], b[2], p_mw=20., loss_percent=1.5, loss_mw=0.3, vm_from_pu=1.01, vm_to_pu=1.02)
+    pp.create_load(net, b[3], 40., 10.); pp.create_load(net, b[1], 5., 1.); pp.create_load(net, b[2], 3., 1.)
+    pp.create_storage(net, b[4], p_mw=2., max_e_mwh=10., q_mvar=0.5)
+    pp.create_ward(net, b[4], 1., 0.3, 0.5, 0.2); pp.create_shunt(net, b[3], q_mvar=-4., p_mw=0.1)
+    pp.create_gen(net, b[4], p_mw=6., vm_pu=1.01)
+    pp.runpp(net)
+    for d in balance(net):
+        fails.append(f"network with a dcline: {d}")
+    for f in fails[:8]:
+        print("REPRODUCED:", f)
+    if not fails:
+        print("not reproduced: nodal balance and res_bus hold on the stand-in networks")
+    sys.exit(1 if fails else 0)
 
 
 if __name__ == "__main__":
